@@ -104,6 +104,8 @@ func driveC17(t *testing.T, out *vEmitter) {
 		// re-spellings of the proxy's own probe paths: only the literal /ping and /ready are the proxy's, these belong to the upstream
 		"/app/assets/logo.png?v=1", "/admin/assets/x.css", "/app/other", "/zebra/stripes/7", "/zoo", "/Zebra",
 		"/pin%67", "/%70ing?a=1", "/read%79", "/%72eady", "/p%69ng/x",
+		// siblings of the proxy's own exact paths: only /robots.txt, /ping and /ready themselves are the proxy's
+		"/robots.txt.bak", "/robots.txt/", "/robots.txt/archive/2024.txt?rev=2", "/robots.txt%2Fold", "/robots.txt;v=1", "/robots.tx", "/ROBOTS.TXT", "/ping/", "/pingx", "/ready/x", "/readyz",
 		"/ws/chat", "/ws/", "/ws/a%2Fb?room=1", "/sock/a%20b?x=1", "/sock/", "/static-resp/x", "/a/", "/a/x", "/ab/x", "/a/b/x", "/a/b/c", "/a/b/c/", "/a/b/cd", "/nohost/x", "/a", "/ab", "/new/direct"}
 	queries := []string{"", "?q=1&r=a+b%20c", "?", "?x=%2F&y=%3D;z"}
 	for si, set := range sets {
